@@ -13,6 +13,7 @@ import (
 	"sort"
 	"strings"
 	"sync"
+	"sync/atomic"
 	"time"
 
 	"github.com/influxdata/influxql"
@@ -54,6 +55,8 @@ var c17Selects = []string{
 	// a wildcard / regex as the direct first argument of every function that has a type filter of its own, in one statement
 	`SELECT holt_winters(*, 10, 4), count(*), min(*), sum(/./), holt_winters_with_fit(*, 10, 4), mean(*), distinct(*), percentile(*, 90) FROM cpu GROUP BY time(1m), host`,
 	`SELECT max(*), holt_winters(/a|v/, 2, 2), first(*), mode(*) FROM cpu, mem WHERE time > now() - 1h GROUP BY time(5m), host, region`,
+	// every reference carries its type already (nothing for wildcard expansion to do)
+	`SELECT value::float, host::tag, max(usage::float) FROM cpu, mem WHERE region::tag = 'west' AND value::float > 0.5 GROUP BY host LIMIT 7`,
 	// "~": keywords written in a mixed case that differs from case to case (see caseSalt)
 	`~select value, mean(usage) from cpu where host = 'a' and time > now() - 1h group by time(1m), host order by time desc limit 3 offset 1`,
 }
@@ -98,6 +101,7 @@ var c17Data = map[string]interface{}{
 }
 
 var c17Now = time.Unix(1600000000, 0).UTC()
+var c17ReaskN int64
 
 type c17Mapper struct{}
 
@@ -266,7 +270,11 @@ var c17Ops = []c17Op{
 		if err != nil {
 			return "err:" + err.Error()
 		}
-		return c17J(project(q)) + q.String()
+		// a later statement that cannot even be started, one that fails inside: errors are results, too
+		_, err2 := influxql.ParseQuery(in.auxText() + "; FOO " + in.s())
+		_, err3 := influxql.ParseQuery("SHOW DATABASES; " + in.auxText() + ";\n42")
+		_, err4 := influxql.ParseQuery(in.selectText() + "; SELECT FROM")
+		return c17J(project(q)) + q.String() + "|" + errStr(err2) + "|" + errStr(err3) + "|" + errStr(err4)
 	}},
 	{"ParseStatement", false, func(o *c17Obj, in c17In) string {
 		texts := []string{in.selectText(), in.auxText(), "SELECT FROM", "SHOW FOO " + in.s()}
@@ -361,6 +369,35 @@ var c17Ops = []c17Op{
 		}
 		return b.String()
 	}},
+	// a parser asked again at the end of its input (the usual "call until EOF" loop) while a second parser has been
+	// created: what the first one answers does not depend on the second one's text (which differs from call to call)
+	{"ParserReask", false, func(o *c17Obj, in c17In) string {
+		n := atomic.AddInt64(&c17ReaskN, 1)
+		render := func(q *influxql.Query, err error) string {
+			if err != nil {
+				return "err:" + err.Error()
+			}
+			return c17J(project(q)) + q.String()
+		}
+		pa := influxql.NewParser(strings.NewReader(in.auxText() + "; " + in.selectText()))
+		var b strings.Builder
+		b.WriteString(render(pa.ParseQuery()))
+		pb := influxql.NewParser(strings.NewReader(fmt.Sprintf("SELECT reask_%d FROM other_%d; SHOW DATABASES", n, n)))
+		st, err := pa.ParseStatement()
+		if err != nil {
+			b.WriteString("|err:" + err.Error())
+		} else {
+			b.WriteString("|" + st.String())
+		}
+		b.WriteString("|" + render(pa.ParseQuery()))
+		qb, errb := pb.ParseQuery()
+		if errb != nil {
+			b.WriteString("|second:err")
+		} else {
+			fmt.Fprintf(&b, "|second:%d", len(qb.Statements))
+		}
+		return b.String()
+	}},
 	// ---- on a (possibly shared) AST: read-only by the property
 	{"String", true, func(o *c17Obj, in c17In) string { return o.q.String() + "\n" + o.sel.String() }},
 	{"Clone", true, func(o *c17Obj, in c17In) string { c := o.sel.Clone(); return c17J(project(c)) + c.String() }},
@@ -421,6 +458,20 @@ var c17Ops = []c17Op{
 		if err != nil {
 			return "err:" + err.Error()
 		}
+		return s.String() + c17J(project(s))
+	}},
+	// ... and the re-written statement is the caller's own: a planner sets window, limits and time fields on it
+	{"RewriteFieldsUse", true, func(o *c17Obj, in c17In) string {
+		s, err := o.sel.RewriteFields(c17Mapper{})
+		if err != nil {
+			return "err:" + err.Error()
+		}
+		s.Limit, s.Offset = 1000+in.n, in.n
+		s.RewriteTimeFields()
+		if err := s.SetTimeRange(c17Now.Add(-time.Duration(in.n+1)*time.Minute), c17Now); err != nil {
+			return "err:" + err.Error()
+		}
+		s.Dimensions = append(s.Dimensions, &influxql.Dimension{Expr: &influxql.VarRef{Val: "extra_" + in.s()}})
 		return s.String() + c17J(project(s))
 	}},
 	{"ColumnNames", true, func(o *c17Obj, in c17In) string { return strings.Join(o.sel.ColumnNames(), "|") }},
